@@ -12,3 +12,5 @@ import GstVerif.Krig.Model
 import GstVerif.Krig.Driver
 import GstVerif.Rng.Model
 import GstVerif.Rng.Driver
+import GstVerif.Neigh.Model
+import GstVerif.Neigh.Driver
